@@ -10,6 +10,9 @@ HOME = {'t1': 'int1', 't2': 'int2', 't3': 'int1', 'newt': 'int2'}
 MODELS = [
     {'name': 'm1', 'integration_name': 'mindsdb', 'timeseries': False, 'to_predict': ['y']},
     {'name': 'm2', 'integration_name': 'proj', 'timeseries': False, 'to_predict': 'target'},
+    # names that begin with digits (a version suffix is a last part made of digits only - `7days` is a name, not a version)
+    {'name': '7days', 'integration_name': 'mindsdb', 'timeseries': False, 'to_predict': ['y']},
+    {'name': '2024_churn', 'integration_name': 'proj', 'timeseries': False, 'to_predict': 'target'},
     {'name': 'ts1', 'integration_name': 'mindsdb', 'timeseries': True, 'window': 3, 'order_by_column': 'ts', 'group_by_columns': ['g']},
     {'name': 'ts0', 'integration_name': 'mindsdb', 'timeseries': True, 'window': 2, 'order_by_column': 'ts', 'group_by_columns': []},
     {'name': 'ts2', 'integration_name': 'mindsdb', 'timeseries': True, 'window': 4, 'order_by_column': 'ts', 'group_by_columns': ['g', 'h']},
@@ -166,7 +169,7 @@ def model_join(rng):
     """Table(s) joined with a non-timeseries model.  Returns (text, info)."""
     r = rng
     model = r.choice(['mindsdb.m1', 'mindsdb.m1.3', 'proj.m2', 'MINDSDB.m1', 'mindsdb.M1', 'mindsdb.m1.007', 'proj.m2.`²`', 'mindsdb.m1.`①`', 'mindsdb.m1.`٣`',
-                      'mindsdb.m1.0', 'proj.m2.12345678901234567890'])
+                      'mindsdb.m1.0', 'proj.m2.12345678901234567890', 'mindsdb.7days', 'mindsdb.7days.3', 'proj.2024_churn', 'MINDSDB.7Days'])
     malias = 'm'
     t = r.choice(['t1', 't2'])
     tbl = f'{HOME[t]}.{t}'
